@@ -253,6 +253,25 @@ def closure_captures(crate, builder):
     return [x.split(":")[0].strip() for x in m.group(1).split(",")]
 
 
+def closure_capture_types(crate, builder):
+    """capture name -> type text of the first closure created in `builder`"""
+    b = crate.bodies.get(builder)
+    if b is None:
+        raise MirUnsupported("no MIR body " + builder)
+    m = re.search(r"\{closure@[^}]*\} \{ ([^}]*) \}", b.text)
+    out = {}
+    if m:
+        for x in m.group(1).split(","):
+            k = x.split(":")[0].strip()
+            loc = re.search(r"(move|copy) (_\d+)", x)
+            ty = None
+            if loc:
+                d = re.search(r"let (?:mut )?%s: ([^;]+);" % re.escape(loc.group(2)), b.text)
+                ty = d.group(1).strip() if d else None
+            out[k] = ty
+    return out
+
+
 def replay_scope(which, i, rb):
     """natively: evaluate a representative expression on a scope with one caller context and compare the scope's rendering before/after"""
     n = i.get("len", 2)
